@@ -984,6 +984,9 @@ class RouterICMP(ICMP):
             was not ICMP, the destination IP does not correspond to an enabled router interface (and no further action
             was required), or the ICMP packet type is not handled by this method.
         """
+        if not self._can_perform_action():
+            return False
+
         frame: Frame = kwargs["frame"]
         from_network_interface = kwargs["from_network_interface"]
 
